@@ -21,6 +21,48 @@ CHECKS = {
  "C06": ("runtime differential monitor: encode under 7 buffer histories vs. encode of a deep clone into a fresh buffer; prefix-preservation, re-encode and sequence-concatenation oracles",
          "Exploration: all 170 types × generated values × 7 buffer histories, re-encodes of the same object, and mixed-type sequences with partial drains. Holds on the executions observed.",
          "Trusts bytes.Buffer and the harness deep-clone.", "§3 C06"),
+ "C07": ("runtime monitor of buffer state after Decode: unread remainder compared byte-for-byte with the known tail; stream oracle over mixed frame sequences",
+         "Exploration: all 170 types × generated canonical values × 4 kinds of trailing bytes, plus mixed-type streams (concatenated and through one shared send buffer) decoded by n successive calls. Holds on the executions observed.",
+         "Trusts bytes.Buffer; values come from the canonical generator.", "§3 C07"),
+ "C08": ("runtime differential monitor: decode of wire-level (encoder-unreachable) and mutated images, re-encode, byte comparison with the consumed bytes (computed tokens must be correct)",
+         "Exploration: images built token by token from the pinned schema (arbitrary pad placement, interior NUL, -0/sNaN, garbage or correct computed fields) and bit-flipped valid images; every accepted image is re-encoded and compared with the bytes consumed. Acceptance sets are sampled, not enumerated.",
+         "Token positions of computed fields come from the pinned schema; own checksum implementations.", "§3 C08"),
+ "C09": ("runtime monitor with panic trap, child-process isolation (RLIMIT_AS 2 GiB, pre-logged in-flight input) and an allocation-count step proxy on hostile inputs",
+         "Exploration: every decoder × random, truncated, bit-flipped, site-directed (every length/count token set to maximal values in both byte orders) and unknown-discriminator inputs; a panic, a dead child or more reader steps than 256+8·len refutes. Holds on the inputs observed.",
+         "Step proxy relies on every reader loop iteration allocating at least once (true for binary.Read under the pinned toolchain; otherwise the bound only gets weaker, never a false alarm).", "§3 C09"),
+ "C10": ("runtime allocation meter (runtime.MemStats.TotalAlloc delta around each Decode in a single-goroutine child) on site-directed hostile inputs",
+         "Exploration: every length/count site of the schema is driven with maximal prefixes followed by 0/1/16 bytes or the valid remainder, plus random and legitimate large inputs; alloc <= 32 KiB + 64·len(input). All 60 sites must be reached or the run is inconclusive.",
+         "The constants are calibrated against the measured worst legitimate ratio, which every run reports.", "§3 C10"),
+ "C11": ("runtime monitor: every strict prefix of valid images is fed to the decoder; any nil error refutes",
+         "Exploration with an exhaustively enumerated inner dimension: per generated value every cut position 0..len-1 (token boundaries ±1 and 256 random cuts for images > 4 KiB). Holds on the values generated.",
+         "Values come from the canonical generator; soundness of 'must reject' rests on C07 (exact consumption).", "§3 C11"),
+ "C12": ("runtime monitor against pinned key→type tables: decode, encode-fill and factory probes over registered keys and large swept/sampled unregistered key spaces",
+         "Exploration with exhaustively enumerated sub-spaces: all 226 registered keys (type identity + round trip + encode-fill bytes), the whole u16 key space, all u32 keys < 2^20 (thorough 2^24) plus neighbourhoods, and for string tables all strings of length <= 3 over a small alphabet (thorough: all byte strings <= 3). The claim stays exploration because the u32 spaces are not swept completely.",
+         "The key→type tables are frozen data of the pinned commit.", "§3 C12"),
+ "C13": ("runtime reference-model monitor for fixed-width text primitives: exhaustive small scope plus random, against a 10-line pad/cut/strip model",
+         "Exploration with an exhaustively enumerated small scope (N<=3 × 256 pad bytes × both sides × all texts over a 5-symbol alphabet) and random widths up to 65536; default wrappers and list variants per element.",
+         "Pad characters above 0xFF are outside 'pad byte'.", "§3 C13"),
+ "C14": ("runtime reference-model monitor for the four checksum services: exhaustive short strings, random and multi-MiB inputs against own implementations; buffer non-consumption and repeatability observed",
+         "Exploration with an exhaustively enumerated sub-space (all strings <= 2 bytes quick, <= 3 bytes thorough) plus random strings to 64 KiB and the specific lengths at which 32-bit accumulators overflow.",
+         "Own CRC/sum implementations are self-tested on published check values.", "§3 C14"),
+ "C15": ("runtime differential monitor: the same image decoded into a fresh receiver and into three kinds of dirty receivers, structural-equality oracle",
+         "Exploration: all 170 types × valid, wire-level and mutated images × 3 receiver histories (populated object, previously decoded other image, after a failed truncated decode). Holds on the executions observed.",
+         "Receiver histories are generated, not enumerated.", "§3 C15"),
+ "C16": ("runtime aliasing monitor: snapshot comparison after scribbling over / reusing the source bytes and after mutating the message; repeated under the race-detector build (checkptr)",
+         "Exploration: all 170 types × values with non-empty lists; decoded message vs deep snapshot after complementing the backing array, resetting/reusing the buffer, decoding another message; written bytes vs snapshot after in-place mutation of the message; zero checkptr/race aborts in the instrumented run.",
+         "checkptr flags only invalid unsafe conversions; valid zero-copy aliases are caught by the snapshot oracle instead.", "§3 C16"),
+ "C17": ("runtime monitor with panic trap and child-process isolation over zero, constructor and arbitrary values of every type",
+         "Exploration: every type × zero value, constructor result, arbitrary field contents, every registered key with nil body, unregistered keys, each nested pointer part nil (thorough: 70 000-element lists). A panic or a dead child refutes.",
+         "Values with nil list elements or typed-nil bodies are excluded as the property says.", "§3 C17"),
+ "C18": ("runtime monitor at the prefix limits: every prefixed writer and every prefixed field of every message at max and max+1 (u32 text via an untouched 4 GiB mapping in the thorough tier)",
+         "Exploration at enumerated boundary points: all prefixed primitives × u8/u16 × {max-1,max,max+1,2max+1}; every prefixed field of every message type at max (round trip) and max+1 (must error), also inside frames; thorough adds 2^32-byte texts behind u32 prefixes. 2^32-element lists are out of reach in this sandbox and not claimed.",
+         "Field enumeration comes from the pinned schema.", "§3 C18"),
+ "C19": ("linearizability checking (porcupine v1.3.0) of recorded concurrent histories against a sequential map model, plus the Go race detector on the same workload",
+         "Exploration over schedules: thousands of short, genuinely overlapping histories of Registry/Get/Remove/Clear with unique-id services are recorded at the client boundary and checked; the same workload runs under -race. Holds on the histories and accesses observed.",
+         "Monitors use no shared state inside the measured region; checker timeouts are inconclusive.", "§3 C19"),
+ "C20": ("Go race detector plus result-equality oracle over 64 goroutines encoding/decoding private objects of all types; fresh-process first-use trials",
+         "Exploration over schedules: parallel results are compared with sequentially precomputed ones for all 170 types while the checksum registry and 18 discriminator maps are read concurrently; -race build reports are counted from the log; first-use trials start every table's first access concurrently in fresh processes.",
+         "The race detector judges only accesses performed by the workload.", "§3 C20"),
 }
 NOT_YET = {}
 def main():
